@@ -1098,6 +1098,15 @@ class NDArraySerializerBase(
             if isinstance(dtype, np.dtype)
             else np.dtype(dtype)  # pyright: ignore [reportUnknownArgumentType]
         )
+        # The elements of an array of records can only be copied as one block of
+        # bytes if their in-memory layout is the wire layout, i.e. if the (aligned)
+        # structured dtype has no padding between or after its fields.
+        self._array_dtype_has_padding = (
+            self._array_dtype.fields is not None
+            and recfunctions.repack_fields(self._array_dtype, align=False, recurse=True).itemsize  # type: ignore
+            != self._array_dtype.itemsize
+        )
+
         if self._subarray_shape == ():
             self._subarray_shape = None
         else:
@@ -1141,7 +1150,10 @@ class NDArraySerializerBase(
     ) -> npt.NDArray[Any]:
         flat_length = int(np.prod(shape))  # type: ignore
 
-        if self.element_serializer.is_trivially_serializable():
+        if (
+            self.element_serializer.is_trivially_serializable()
+            and not self._array_dtype_has_padding
+        ):
             flat_byte_length = flat_length * self._array_dtype.itemsize
             byte_array = stream.read_bytearray(flat_byte_length)
             return np.frombuffer(byte_array, dtype=self._array_dtype).reshape(shape)
@@ -1156,9 +1168,8 @@ class NDArraySerializerBase(
         return (
             self.element_serializer.is_trivially_serializable()
             and value.flags.c_contiguous
-            and (
-                self._array_dtype.fields is None
-                or all(f != "" for f in self._array_dtype.fields)
+            and not (
+                value.dtype == self._array_dtype and self._array_dtype_has_padding
             )
         )
 
